@@ -113,6 +113,46 @@ PROPS = {
         signatures=["panic"],
         partial="coverage-guided fuzzing (go test -fuzz) is not wired in; generation is structural mutation of rendered documents.",
     ),
+    "C26": dict(
+        level="translation_validation",
+        technique="translation validation with a validator verified in Coq: generated packages dumped into Coq terms, fits_b (proved = fits) decides them by vm_compute on every run; go build/go vet as supporting run",
+        claim="c26_fits_b_spec: fits_b = true <-> fits (every schema data node reachable under the compression rule -- FindAllChildren/findRootEntries/findMapPaths transcribed as `expected` -- "
+              "appears as exactly one field; every field's path/module/shadow tags resolve to such a node whose kind fits the field's Go type kind, recursively); per run "
+              "c26_all_generated_structs_fit by vm_compute over corpus x flag matrix x random YANG, lifted by c26_lift; the schema is the embedded schema plus module names (c26_schema_is_embedded_schema).",
+        note="Trusted: Coq kernel; translators harness/ydrive/c26_godump.go (reflection: tags, Go type kinds) and c27_schemadump.go (goyang tree printer), lib/gencorpus.py; compile/vet is testing "
+             "(no Gallina model of Go's type checker).",
+        coq_files=["Gen/SchemaEq", "Gen/SchemaEqProofs", "Gen/SchemaMatch", "Gen/SchemaMatchProofs"],
+        streams=[],
+        pre=lambda tier, seed: __import__("c26_pre").pre(tier, seed),
+        trusted=["translators c26_godump.go/c27_schemadump.go", "goyang as reader of the input modules", "Go toolchain for the supporting run"],
+        partial="leafref target types are not resolved (any leaf kind fits); a union fits an interface or any member's kind; 'all schemas' is per-run validation of the corpus; generator rejections "
+                "with explicit messages (enum/identity name clash, non-OpenConfig shapes under compression) are counted as skipped.",
+    ),
+    "C27": dict(
+        level="translation_validation",
+        technique="translation validation with a validator verified in Coq (schema_eq_b, proved = equality with the transformed goyang tree), evaluated by vm_compute on every generated package on every run",
+        claim="c27_schema_eq_b_spec: schema_eq_b o mods e = true <-> embed o mods = e; embed = fake root over non-excluded modules' entries, module names/descriptions erased, schemapath annotation, "
+              "leafref config->state rewrite under prefer_operational_state (c27_embed_* theorems say nothing else changes); per run c27_all_embedded_schemas_faithful by vm_compute on every generated package.",
+        note="Trusted: Coq kernel; printer c27_schemadump.go (same function for both trees); goyang itself.",
+        coq_files=["Gen/SchemaEq", "Gen/SchemaEqProofs"],
+        streams=[],
+        pre=lambda tier, seed: __import__("c27_pre").pre(tier, seed),
+        trusted=["c27_schemadump.go", "goyang (yang.NewModules/Read/Process/ToEntry)"],
+        partial="identity bases are compared by name + derived names (module of an identity is not serialised); Exts/Augments/Uses/when/must are not compared; rpc/notification are not generated.",
+    ),
+    "C29": dict(
+        level="translation_validation",
+        technique="Coq proof about a transcription of ResolvePath/relPath/KeyValueAsString (induction over chains of any length) + per-run correspondence on every enumerated accessor chain + tag-path check",
+        claim="c29_resolve (any chain length): resolve = concatenation of relative paths; c29_resolve_names; keys rendered by key_to_string under their names (c29_rel_keys, c29_keys_rendered), "
+              "wildcards '*' (c29_wildcard); errors propagate, bad root fails (c29_bad_root). Every run enumerates the generated path API by reflection and compares model = implementation "
+              "and element names = GoStruct tag path.",
+        note="Trusted: Coq kernel; c29_paths.go (reflection enumeration, accessor harness_accessors/ygot/c29_acc.go); %g float text as oracle table.",
+        coq_files=["Gen/PathStructs", "Gen/PathStructsProofs"],
+        streams=[],
+        pre=lambda tier, seed: __import__("c29_pre").pre(tier, seed),
+        trusted=["c29_paths.go + c29_acc.go", "float %g oracle"],
+        partial="path structs exist for compressed code only; builder API (list_builder_key_threshold) and split_pathstructs_by_module are not enumerated; accessors whose enum type has no defined value are skipped (counted).",
+    ),
     "C28": dict(
         level="proof",
         technique="Coq proof about a transcription of fieldTag/FNV-1 and a verified well-formedness checker + correspondence check on regenerated protobufs + adversarial collision search",
